@@ -2,6 +2,7 @@
 # usage: run_seed.sh <seed-dir> <prop> [more props...]  — applies the seeded change to /repo, runs the checks, undoes it
 SEED=$1; shift
 cd /verif
+rm -rf /verif/work/evidence_backup && cp -r /verif/evidence /verif/work/evidence_backup
 git -C /repo apply "$SEED/patch.diff" || { echo "patch does not apply"; exit 2; }
 for P in "$@"; do
   ./check $P quick 2>&1 | grep -E "^(VIOLATION|OK|KNOWN)" | grep -v KNOWN-FINDING | cut -c1-200
@@ -9,3 +10,5 @@ done
 git -C /repo checkout -- .
 /verif/harness/target/debug/harness extract --out /verif/lean/O2oModel/Generated.lean >/dev/null
 (cd /verif/harness && cargo build --offline --quiet 2>/dev/null; cargo build --offline --quiet --no-default-features --features s2 --target-dir target2 2>/dev/null)
+# evidence files written while the seeded change was applied are not evidence about /repo: restore
+for P in "$@"; do cp /verif/work/evidence_backup/$P.json /verif/evidence/$P.json 2>/dev/null; done
